@@ -15,7 +15,8 @@
      [k "feature", t, body]                 feature t { body } t;
    body statements:
      [k "flag", f, mf, ma]                  lookupflag (bits 1 RightToLeft 2 IgnoreBaseGlyphs 4 IgnoreLigatures
-                                            8 IgnoreMarks; mf / ma = UseMarkFilteringSet / MarkAttachmentType class or <<>>)
+                                            8 IgnoreMarks; mf / ma = <<class>> of UseMarkFilteringSet / MarkAttachmentType, or <<>>)
+     [k "cls" | "mcls" | "vr", ...]         the declarations above may also stand inside a block
      [k "script", s]   [k "lang", l, inc]   script s;   language l [exclude_dflt];
      [k "lookup", n, body]  [k "ref", n]    nested lookup block;  lookup L<n>;
      [k "subtable"]                         subtable;
@@ -28,7 +29,7 @@
      [k "pos1", g, v]                       pos g v;
      [k "pos2", g1, g2, v1, v2, enum]       [enum] pos g1 g2 v1;  /  pos g1 v1 g2 v2;   (v2.t = "0": absent)
      [k "curs", g, en, ex]                  pos cursive g <anchor en> <anchor ex>;   (<<>> = NULL)
-     [k "mkb" | "mkm", g, as]               pos base|mark g <anchor> mark @M ...;   as = <<[a, m], ...>>
+     [k "mkb" | "mkm", g, as]               pos base|mark g <anchor> mark @M ...;   as = <<[a |-> anchor, m |-> mark class], ...>>
      [k "mkl", g, comps]                    pos ligature g <anchor> mark @M ... ligComponent ...;
      [k "cpos", pre, inp, suf]              pos pre inp' suf;  inp = <<[g, ref, v], ...>> (in-line value or lookups)
      [k "ipos", pre, inp, suf]              ignore pos ...;
